@@ -1,12 +1,12 @@
 package rules
 
 import (
-	"strconv"
 	"go/constant"
 	"go/token"
 	"go/types"
 	"regexp"
 	"sort"
+	"strconv"
 	"strings"
 
 	"golang.org/x/tools/go/ssa"
@@ -18,8 +18,9 @@ import (
 // C17 — retry: bounded attempts, only transient failures, capped backoff, prompt cancel.
 // Anchors: the exported API of internal/retry (Execute, IsRetryableError, Config.Validate and the
 // documented range constants), resolved through the type-checked package.
-//   R-no-transport-replay no request is marked replayable for net/http (Idempotency-Key)
-//   (R-body-taint accepts a typed status error that the classifier judges by its code alone)
+//
+//	R-no-transport-replay no request is marked replayable for net/http (Idempotency-Key)
+//	(R-body-taint accepts a typed status error that the classifier judges by its code alone)
 func init() { Registry["C17"] = checkC17 }
 
 const retryPkg = ir.RootPath + "/internal/retry"
